@@ -1,8 +1,227 @@
 import Gonuts.Model.Sexp
-/-! Driver commands `token.*` (stateless): filled in by the Token model. Core-only imports. -/
-namespace Gonuts.Model.TokenDriver
-open Gonuts
+import Gonuts.Model.Token
+import Gonuts.Model.TokenWire
+/-!
+  Driver commands `token.*` (stateless; core-only imports).
 
-def handle (_cmd : String) (_args : List Sexp) : Option Sexp := none
+  Wire format (S-expressions; strings quoted, byte strings as lower-case hex in quotes):
+
+    proof    ::= (AMOUNT "id" "secret" "C" "witness" DLEQ)        DLEQ   ::= none | ("e" "s" "r")
+    proofv4  ::= (AMOUNT "secret" "chex" "witness" DLEQ4)         DLEQ4  ::= none | ("ehex" "shex" "rhex")
+    token    ::= (v3 (("mint" (proof…))…) "unit" "memo")
+               | (v4 (("idhex" (proofv4…))…) "memo" "mint" "unit")
+
+    token.newv3  (proof…) "mint" UNIT BOOL      -> (ok token) | (err KIND)
+    token.newv4  (proof…) "mint" UNIT BOOL      -> (ok token) with the groups sorted by their rendering
+                                                   | (err KIND DETAIL…); for `invalid-keyset-id` every candidate
+                                                   detail is listed (which key Go meets first is unspecified)
+    token.access token                          -> ((proofs (proof…)) (mint "…") | (mint panic IDX LEN)) (amount N))
+    token.front  "hexbytes"                     -> ((v4 STAGE) (v3 STAGE)): what DecodeTokenV4 / DecodeTokenV3 do before Unmarshal
+                                                   STAGE ::= (panic HI LEN) | (err invalid-v3) | (err invalid-v4)
+                                                           | (err (b64err N)) | (payload "hex")
+    token.serialize token                       -> "cashuA…" / "cashuB…" with the modelled json/cbor encoders (Model.TokenWire)
+    token.marshal token                         -> "hex" of the modelled json.Marshal / cbor.Marshal output
+    token.parse-json "hex" / token.parse-cbor "hex" -> (some token) | none: the canonical parsers of Model.TokenWire
+    token.check-v3 token                        -> (ok) | (err invalid-v3): the check of DecodeTokenV3 after Unmarshal
+    token.front-old "hexbytes"                  -> as token.front, for the code before the F9 fix
+    token.hexdec "s" -> (ok "hex") | (err odd) | (err byte N)     token.hexenc "hex" -> "s"
+    token.b64dec BOOL "hexbytes" -> (ok "hex") | (err N)          token.b64enc BOOL "hex" -> "hex"
+    token.lower  "s" -> "lowerHex s"
+-/
+namespace Gonuts.Model.TokenDriver
+open Gonuts Gonuts.Model.Token
+
+def u64? (s : Sexp) : Option UInt64 := do
+  match s with
+  | .atom _ =>
+    let n ← s.asNat?
+    if n < 2 ^ 64 then some (UInt64.ofNat n) else none
+  | _ => none
+
+def str? : Sexp → Option String
+  | .str s => some s
+  | _ => none
+
+def bytes? (s : Sexp) : Option Bytes := do
+  match hexDecode (← str? s) with
+  | .ok b => some b
+  | .error _ => none
+
+def ofBytes (b : Bytes) : Sexp := .str (hexEncode b)
+def ofU64 (x : UInt64) : Sexp := Sexp.ofNat x.toNat
+
+def dleq? : Sexp → Option (Option DLEQ)
+  | .atom "none" => some none
+  | .list [e, s, r] => do some (some { e := ← str? e, s := ← str? s, r := ← str? r })
+  | _ => none
+
+def proof? : Sexp → Option Proof
+  | .list [a, id, secret, c, w, d] => do
+    some { amount := ← u64? a, id := ← str? id, secret := ← str? secret, c := ← str? c,
+           witness := ← str? w, dleq := ← dleq? d }
+  | _ => none
+
+def proofs? (s : Sexp) : Option (List Proof) := do (← s.asList?).mapM proof?
+
+def dleq4? : Sexp → Option (Option DLEQV4)
+  | .atom "none" => some none
+  | .list [e, s, r] => do some (some { e := ← bytes? e, s := ← bytes? s, r := ← bytes? r })
+  | _ => none
+
+def proof4? : Sexp → Option ProofV4
+  | .list [a, secret, c, w, d] => do
+    some { amount := ← u64? a, secret := ← str? secret, c := ← bytes? c, witness := ← str? w, dleq := ← dleq4? d }
+  | _ => none
+
+def token? : Sexp → Option Token
+  | .list [.atom "v3", .list entries, unit, memo] => do
+    let es ← entries.mapM fun e =>
+      match e with
+      | .list [m, ps] => do some ({ mint := ← str? m, proofs := ← proofs? ps } : TokenV3Proof)
+      | _ => none
+    some (.v3 { token := es, unit := ← str? unit, memo := ← str? memo })
+  | .list [.atom "v4", .list groups, memo, mint, unit] => do
+    let gs ← groups.mapM fun g =>
+      match g with
+      | .list [id, ps] => do
+        some ({ id := ← bytes? id, proofs := ← (← ps.asList?).mapM proof4? } : TokenV4Proof)
+      | _ => none
+    some (.v4 { tokenProofs := gs, memo := ← str? memo, mintURL := ← str? mint, unit := ← str? unit })
+  | _ => none
+
+def ofDleq : Option DLEQ → Sexp
+  | none => .atom "none"
+  | some d => .list [.str d.e, .str d.s, .str d.r]
+
+def ofProof (p : Proof) : Sexp :=
+  .list [ofU64 p.amount, .str p.id, .str p.secret, .str p.c, .str p.witness, ofDleq p.dleq]
+
+def ofDleq4 : Option DLEQV4 → Sexp
+  | none => .atom "none"
+  | some d => .list [ofBytes d.e, ofBytes d.s, ofBytes d.r]
+
+def ofProof4 (p : ProofV4) : Sexp :=
+  .list [ofU64 p.amount, .str p.secret, ofBytes p.c, .str p.witness, ofDleq4 p.dleq]
+
+def ofToken : Token → Sexp
+  | .v3 t => .list [.atom "v3",
+      .list (t.token.map fun e => .list [.str e.mint, .list (e.proofs.map ofProof)]), .str t.unit, .str t.memo]
+  | .v4 t => .list [.atom "v4",
+      .list (t.tokenProofs.map fun g => .list [ofBytes g.id, .list (g.proofs.map ofProof4)]),
+      .str t.memo, .str t.mintURL, .str t.unit]
+
+/-- `NewTokenV4` answer: the group order of the Go code comes from map iteration, so both sides compare the
+    groups sorted by their rendering (pure ASCII, hence the same order in Go and Lean). -/
+def ofV4Sorted (t : TokenV4) : Sexp :=
+  let gs : List Sexp := t.tokenProofs.map fun g => .list [ofBytes g.id, .list (g.proofs.map ofProof4)]
+  let keyed := gs.map fun g => (g.render, g)
+  let sorted := keyed.mergeSort (fun a b => decide (a.1 ≤ b.1))
+  .list [.atom "v4", .list (sorted.map (·.2)), .str t.memo, .str t.mintURL, .str t.unit]
+
+def ofHexErr : HexErr → List Sexp
+  | .oddLength => [.atom "odd"]
+  | .invalidByte b => [.atom "byte", Sexp.ofNat b.toNat]
+
+def ofNewErr : NewErr → Sexp
+  | .invalidUnit => .list [.atom "err", .atom "invalid-unit"]
+  | .invalidC h => .list ([.atom "err", .atom "invalid-C"] ++ ofHexErr h)
+  | .invalidE h => .list ([.atom "err", .atom "invalid-e"] ++ ofHexErr h)
+  | .invalidS h => .list ([.atom "err", .atom "invalid-s"] ++ ofHexErr h)
+  | .invalidR h => .list ([.atom "err", .atom "invalid-r"] ++ ofHexErr h)
+  | .emptyR => .list [.atom "err", .atom "empty-r"]
+  | .invalidKeysetId h => .list ([.atom "err", .atom "invalid-keyset-id"] ++ ofHexErr h)
+
+def int? (s : Sexp) : Option Int :=
+  match s with
+  | .atom a => a.toInt?
+  | _ => none
+
+def ofDecErr : DecErr → Sexp
+  | .invalidTokenV3 => .atom "invalid-v3"
+  | .invalidTokenV4 => .atom "invalid-v4"
+  | .base64 n => .list [.atom "b64err", Sexp.ofNat n]
+  | .unmarshal => .atom "unmarshal"
+
+/-- Outcome of the part of `DecodeTokenV3/V4` that precedes `Unmarshal`. -/
+def ofFront : Out DecErr Bytes → Sexp
+  | .panic (.sliceBounds hi len) => .list [.atom "panic", Sexp.ofNat hi, Sexp.ofNat len]
+  | .panic (.indexRange i len) => .list [.atom "panic-index", Sexp.ofNat i, Sexp.ofNat len]
+  | .err e => .list [.atom "err", ofDecErr e]
+  | .ok b => .list [.atom "payload", ofBytes b]
+
+def handle (cmd : String) (args : List Sexp) : Option Sexp :=
+  match cmd, args with
+  | "token.newv3", [ps, mint, unit, dleq] => do
+    match newV3 (← proofs? ps) (← str? mint) (← int? unit) (← dleq.asBool?) with
+    | .ok t => some (.list [.atom "ok", ofToken (.v3 t)])
+    | .error e => some (ofNewErr e)
+  | "token.newv4", [ps, mint, unit, dleq] => do
+    let ps ← proofs? ps
+    let mint ← str? mint
+    let unit ← int? unit
+    let dleq ← dleq.asBool?
+    -- every key that does not decode is a candidate for the reported error: list them all
+    let bad (m : GoMap) : List Sexp := m.keys.filterMap fun k =>
+      match hexDecode k with
+      | .error h => some (.list (ofHexErr h))
+      | .ok _ => none
+    match newV4With (fun m => m.keys) ps mint unit dleq with
+    | .ok t => some (.list [.atom "ok", ofV4Sorted t])
+    | .error (.invalidKeysetId _) =>
+      match buildMap dleq ps [] with
+      | .ok m => some (.list ([.atom "err", .atom "invalid-keyset-id"] ++ bad m))
+      | .error _ => none
+    | .error e => some (ofNewErr e)
+  | "token.access", [t] => do
+    let t ← token? t
+    let mint : Sexp := match t.mint with
+      | .ok m => .list [.atom "mint", .str m]
+      | .panic (.indexRange i l) => .list [.atom "mint", .atom "panic", Sexp.ofNat i, Sexp.ofNat l]
+      | _ => .list [.atom "mint", .atom "?"]
+    some (.list [.list [.atom "proofs", .list (t.proofs.map ofProof)], mint, .list [.atom "amount", ofU64 t.amount]])
+  | "token.front", [s] => do
+    let s ← bytes? s
+    some (.list [.list [.atom "v4", ofFront (frontV4 s)], .list [.atom "v3", ofFront (frontV3 s)]])
+  | "token.serialize", [t] => do some (.str (Wire.serialize (← token? t)))
+  | "token.marshal", [t] => do
+    match ← token? t with
+    | .v3 t3 => some (ofBytes (Wire.jsonTokenV3 t3))
+    | .v4 t4 => some (ofBytes (Wire.cborTokenV4 t4))
+  | "token.parse-json", [b] => do
+    match Wire.jsonParse (← bytes? b) with
+    | some t => some (.list [.atom "some", ofToken (.v3 t)])
+    | none => some (.atom "none")
+  | "token.parse-cbor", [b] => do
+    match Wire.cborParse (← bytes? b) with
+    | some t => some (.list [.atom "some", ofToken (.v4 t)])
+    | none => some (.atom "none")
+  | "token.check-v3", [t] => do
+    match ← token? t with
+    | .v3 t3 =>
+      match checkV3 t3 with
+      | .ok _ => some (.list [.atom "ok"])
+      | .err e => some (.list [.atom "err", ofDecErr e])
+      | .panic _ => none
+    | .v4 _ => none
+  | "token.front-old", [s] => do
+    let s ← bytes? s
+    some (.list [.list [.atom "v4", ofFront (frontOld prefixV4 .invalidTokenV4 s)],
+                 .list [.atom "v3", ofFront (frontOld prefixV3 .invalidTokenV3 s)]])
+  | "token.hexdec", [s] => do
+    match hexDecode (← str? s) with
+    | .ok b => some (.list [.atom "ok", ofBytes b])
+    | .error h => some (.list (.atom "err" :: ofHexErr h))
+  | "token.hexenc", [b] => do some (.str (hexEncode (← bytes? b)))
+  | "token.lower", [s] => do some (.str (lowerHex (← str? s)))
+  | "token.b64dec", [pad, s] => do
+    match b64Decode (← pad.asBool?) (← bytes? s) with
+    | .ok b => some (.list [.atom "ok", ofBytes b])
+    | .error n => some (.list [.atom "err", Sexp.ofNat n])
+  | "token.b64enc", [pad, b] => do some (ofBytes (b64Encode (← pad.asBool?) (← bytes? b)))
+  | "token.b64stage", [s] => do
+    match b64Stage (← bytes? s) with
+    | .ok b => some (.list [.atom "ok", ofBytes b])
+    | .error n => some (.list [.atom "err", Sexp.ofNat n])
+  | _, _ => none
 
 end Gonuts.Model.TokenDriver
